@@ -1357,6 +1357,67 @@ def run_dist(case, ctx):
     ctx.close(ts1.kc_distance(ts1, lam), 0.0, "kc_distance(self)")
 
 
+# ------------------------------------------------------------------ (C) RF distance on trees with internal samples
+@st.composite
+def rf_general_case(draw):
+    """Single-rooted trees by construction: node u (time u) takes a parent among the older nodes in every
+    interval; leaves are samples, internal nodes are samples at random (unary nodes and polytomies occur)."""
+    n = draw(st.integers(3, 8))
+    nint = draw(st.integers(2, 4))
+    par = []
+    for i in range(nint):
+        row = []
+        for u in range(n - 1):
+            if i > 0 and draw(st.integers(0, 2)) > 0:
+                row.append(par[i - 1][u])
+            else:
+                row.append(draw(st.integers(u + 1, n - 1)))
+        par.append(row + [-1])
+    has_child = [any(u in par[i][: n - 1] for i in range(nint)) for u in range(n)]
+    always_leafless = [all(u in par[i] for i in range(nint)) for u in range(n)]
+    flags = [1 if not always_leafless[u] else int(draw(st.booleans())) for u in range(n)]
+    edges = []
+    for u in range(n - 1):
+        i = 0
+        while i < nint:
+            k = i
+            while k + 1 < nint and par[k + 1][u] == par[i][u]:
+                k += 1
+            edges.append([float(i), float(k + 1), par[i][u], u, ""])
+            i = k + 1
+    edges.sort(key=lambda e: (e[2], e[3], e[0]))
+    spec = dict(L=float(nint), nodes=[[flags[u], float(u), -1, -1, ""] for u in range(n)], edges=edges,
+                sites=[], mutations=[], individuals=[], populations=[], migrations=[])
+    return dict(spec=spec)
+
+
+def run_rf_general(case, ctx):
+    """rf_distance between the trees of one tree sequence (identical sample nodes), single-rooted, every
+    leaf a sample; internal and unary sample nodes allowed: clades are the sample sets below the nodes."""
+    import tskit
+
+    spec = case["spec"]
+    ts = gen.build_tables(spec, tskit).tree_sequence()
+    usable = []
+    for a, b, par in O.tree_intervals(spec):
+        ch = model.children_of(par)
+        roots = model.roots(spec, par, 1)
+        if len(roots) != 1:
+            continue
+        below = model.descendants(ch, roots[0])
+        if any(not ch[u] and not model.is_sample(spec, u) for u in below):
+            continue  # a dead leaf: whether the empty clade counts is not defined by the docs
+        usable.append((a, par, any(ch[u] and model.is_sample(spec, u) for u in below)))
+    ctx.label("pairs", len(usable) >= 2)
+    ctx.label("internal_sample", any(x[2] for x in usable))
+    ctx.nt(len(usable) >= 2 and any(x[2] for x in usable))
+    for a1, p1, _ in usable:
+        for a2, p2, _ in usable:
+            t1, t2 = ts.at(a1), ts.at(a2)
+            exp = len(O.clades(spec, p1) ^ O.clades(spec, p2))
+            ctx.eq(int(t1.rf_distance(t2)), exp, "Tree.rf_distance (internal samples)")
+
+
 # ------------------------------------------------------------------ (E) Python threads sharing one tree sequence
 def big_spec(seed, k, nt, nsites):
     """Deterministic function of its arguments (seeded PRNG; the arguments are Hypothesis draws):
@@ -1500,6 +1561,9 @@ SUBCHECKS = [
              rule=">=2 trees; K in {2,3,4,8} Python threads each running 10 statistics (6 of them release "
              "the GIL) 1-4 times on one shared tree sequence of 8-40 samples x 2-24 trees; bitwise equal to "
              "the serial results", floors=FLOORS_SHARED_THREADS, thorough_flavour="asan"),
+    SubCheck("C08.rf_general", run_rf_general, strategy=rf_general_case, quick=1200, thorough=36000,
+             rule="tree sequence with >=2 single-rooted trees whose leaves are all samples, at least one with an internal sample",
+             floors={"pairs": 0.5, "internal_sample": 0.3}),
 ]
 
 _PROBE_GRV = dict(
